@@ -76,9 +76,7 @@ def linearPositions (n : Nat) : List (List Rat) :=
 
 def zerosVec (n : Nat) : Arr := ⟨[n], List.replicate n (.num 0)⟩
 def zerosMat (n m : Nat) : Arr := ⟨[n, m], List.replicate (n * m) (.num 0)⟩
-/-- `np.eye(n)`; `one` is the cell standing for 1.0 -/
-def eye (one : Cell) (n : Nat) : Arr :=
-  ⟨[n, n], ((List.range n).map fun i => (List.range n).map fun j => if i = j then one else .num 0).flatten⟩
+-- `eye` (`np.eye`) is defined in Model/C04.lean (`load` writes the inverse of the identity)
 
 /-- `if cols.ndim != 2: cols = np.atleast_2d(cols).T` (model.py:721-722) -/
 def colsFix (a : Arr) : Arr :=
@@ -172,6 +170,7 @@ structure FullView (β : Type) where
   channelProbes : Arr
   templateCols : Option Arr
   wm : Arr
+  wmi : Arr
   similar : Arr
   spikeAttributes : List (String × Arr)
   traces : Option (C02.Heap β × Nat)
@@ -214,7 +213,7 @@ possibly created `spike_clusters.npy` already; which assertion fails first is no
 this model, a failed load returns no directory.) -/
 def loadFull {β : Type} (inv : Arr → Arr) (rate : Rat) (tden ncd : Nat) (one : Cell)
     (raw : Option (List (List (List β)))) (d : Dir) : Except FullErr (FullView β × Dir) := do
-  let (v, d') ← match load inv d with
+  let (v, d') ← match load inv d one with
     | .ok r => pure r
     | .error e => throw (.base e)
   let ns := v.times.arr.shape.headD 0                    -- `ns, = self.spike_times.shape`
@@ -240,6 +239,8 @@ def loadFull {β : Type} (inv : Arr → Arr) (rate : Rat) (tden ncd : Nat) (one 
           channelProbes := v.channelProbes.getD (zerosVec nc),     -- model.py:563
           templateCols := cols,
           wm := v.wm.getD (eye one nc),                            -- model.py:438
+          -- model.py:444-447: the stored inverse, or `_compute_wmi(self.wm)` of the matrix WITH its default
+          wmi := v.wmi.getD (inv (v.wm.getD (eye one nc))),
           similar := v.similar.getD (zerosMat nt nt),              -- model.py:692
           spikeAttributes := attrs,
           traces := loadTraces raw v.channelMap,
